@@ -21,6 +21,9 @@ type prop struct {
 
 var props = map[string]*prop{}
 
+// extra arguments of `gen` after the tier (e.g. "scaled 64")
+var extraArgs []string
+
 type gen struct {
 	r    *rand.Rand
 	tier string
@@ -59,6 +62,9 @@ func main() {
 	switch os.Args[1] {
 	case "gen":
 		seed, _ := strconv.ParseInt(os.Args[3], 10, 64)
+		if len(os.Args) > 5 {
+			extraArgs = os.Args[5:]
+		}
 		g := &gen{r: rand.New(rand.NewSource(seed)), tier: os.Args[4], w: bufio.NewWriterSize(os.Stdout, 1<<20)}
 		p.gen(g)
 		g.w.Flush()
